@@ -56,6 +56,8 @@ class TrS:
             if isinstance(self.consts.get(n.id), str):
                 return lstr(self.consts[n.id]), 'str'
             raise Untranslatable("unknown name " + n.id)
+        if isinstance(n, ast.Attribute) and isinstance(n.value, ast.Name) and n.value.id == 'self' and ('self.' + n.attr) in self.env:
+            return "self" + n.attr, self.env['self.' + n.attr]          # an attribute of the object read by the method: an extra parameter
         if isinstance(n, ast.BinOp) and isinstance(n.op, (ast.Add, ast.Sub)):
             (a, ta), (b, tb) = self.expr(n.left), self.expr(n.right)
             if ta == tb == 'str' and isinstance(n.op, ast.Add):
@@ -135,10 +137,13 @@ class TrS:
                 if ta == tb == 'str':
                     self.uses_resolve = True
                     return "(resolve %s %s)" % (a, b), 'str'
-            if isinstance(f, ast.Name) and isinstance(self.consts.get(f.id), tuple) and self.consts[f.id][0] == 'func':
-                # a function of the same module that was itself translated: monadic call, bound before the statement (so not under a lazy operator)
-                _, lname, ptypes, rty = self.consts[f.id][:4]
-                defaults = self.consts[f.id][4] if len(self.consts[f.id]) > 4 else {}
+            fkey = f.id if isinstance(f, ast.Name) else ('self.' + f.attr if isinstance(f, ast.Attribute) and isinstance(f.value, ast.Name) and f.value.id == 'self' else None)
+            if fkey is not None and isinstance(self.consts.get(fkey), tuple) and self.consts[fkey][0] == 'func':
+                # a function of the same module / a method of the same class that was itself translated: monadic call, bound before the statement
+                # (so not under a lazy operator); a method receives the object's attributes it may read as leading arguments
+                _, lname, ptypes, rty = self.consts[fkey][:4]
+                defaults = self.consts[fkey][4] if len(self.consts[fkey]) > 4 else {}
+                f = ast.Name(id=fkey, ctx=ast.Load())
                 names = [p for p, _ in ptypes]
                 given = list(n.args) + [None] * (len(ptypes) - len(n.args))
                 for kw in n.keywords:
@@ -158,7 +163,8 @@ class TrS:
                     cargs.append(c)
                 self.fresh += 1
                 v = "r_%d" % self.fresh
-                self.hoist.append("let %s ← %s %s" % (v, lname, " ".join(cargs)))
+                selfargs = ["self" + k[5:] for k in self.env if k.startswith('self.')] if fkey.startswith('self.') else []
+                self.hoist.append("let %s ← %s %s" % (v, lname, " ".join(selfargs + cargs)))
                 return v, rty
             if isinstance(f, ast.Attribute) and f.attr == 'search' and isinstance(f.value, ast.Name) and len(n.args) == 1 and not n.keywords \
                     and isinstance(self.consts.get(f.value.id), tuple) and self.consts[f.value.id][0] == 'charclass':
@@ -200,6 +206,9 @@ class TrS:
                 if tx == 'str':     # a plain string is never None
                     return ("true" if isinstance(op, ast.IsNot) else "false"), 'bool'
             (a, ta), (b, tb) = self.expr(l), self.expr(r)
+            if isinstance(op, (ast.In, ast.NotIn)) and ta == 'str' and tb == 'strdict':
+                e = "(PyOps.dictHas %s %s)" % (b, a)
+                return (e if isinstance(op, ast.In) else "(!%s)" % e), 'bool'
             if isinstance(op, (ast.In, ast.NotIn)) and ta == tb == 'str':
                 e = "(PyOps.isIn %s %s)" % (a, b)
                 return (e if isinstance(op, ast.In) else "(!%s)" % e), 'bool'
@@ -468,15 +477,16 @@ LEAN_TY = {'str': 'List Char', 'int': 'Int', 'bool': 'Bool', 'optstr': 'Option (
 
 def translate(out, report, assumptions, lean_name, fn, param_types, ret, consts, skip=('self',)):
     params = [(a.arg, param_types.get(a.arg)) for a in fn.args.args if a.arg not in skip]
+    selfattrs = [(k, t) for k, t in param_types.items() if k.startswith('self.')]
     try:
         for p, t in params:
             if t is None:
                 raise Untranslatable("untyped parameter " + p)
-        tr = TrS(dict(params), consts, {}, assumptions)
+        tr = TrS(dict(selfattrs + params), consts, {}, assumptions)
         body = tr.block(list(fn.body), ret)
         if tr.hoist:
             raise Untranslatable("an index expression was left unbound")
-        sig = " ".join("(%s : %s)" % (p, LEAN_TY[t]) for p, t in params)
+        sig = " ".join("(%s : %s)" % (("self" + p[5:]) if p.startswith('self.') else p, LEAN_TY[t]) for p, t in selfattrs + params)
         if tr.uses_resolve:
             sig = "(resolve : List Char → List Char → List Char) " + sig
         out.append("def %s %s : Except PyExc (%s) := do\n  %s\n" % (lean_name, sig, LEAN_TY[ret], body))
